@@ -91,7 +91,7 @@ def sample_AABB(
     elif mode=="grid":
         res = round(np.power(n_pts, 1/box.dim))
         Xdims = (np.linspace(0,1,res) for _ in range(box.dim))
-        points = np.vstack(list(map(np.ravel, np.meshgrid(*Xdims)))).T
+        points = box.mini + box.span * np.vstack(list(map(np.ravel, np.meshgrid(*Xdims)))).T
     if return_point_cloud:
         return from_arrays(points)
     else:
